@@ -223,12 +223,13 @@ def chsize_domain_rule(P, rep, rid, tier='quick'):
     class Abort(Exception):
         pass
 
-    for mac in (1, 2, 3):
+    full = 3 if tier == 'quick' else 4          # number of splits up to which lost/short files and capacities are enumerated in full
+    for mac in ((1, 2, 3) if tier == 'quick' else (1, 2, 3, 4)):
         olds = [o for o in itertools.product((0, 4, 8), repeat=mac) if all(o[k] != 0 or all(x == 0 for x in o[k:]) for k in range(mac))]
         for o in olds:
-            a_opts = [sorted({o[k], 0} | ({o[k] - 4} if (o[k] >= 4 and mac < 3) else set())) for k in range(mac)]
+            a_opts = [sorted({o[k], 0} | ({o[k] - 4} if (o[k] >= 4 and mac < full) else set())) for k in range(mac)]
             for a in itertools.product(*a_opts):
-                c_opts = [sorted({a[k], 12} | ({a[k] + 4, a[k] + 6} if mac < 3 else set())) for k in range(mac)]
+                c_opts = [sorted({a[k], 12} | ({a[k] + 4, a[k] + 6} if mac < full else set())) for k in range(mac)]
                 for cap in itertools.product(*c_opts):
                     for req in range(0, sum(o) + 9, 4):
                         hp = RG.P_(('obj', 'handle'), 0); pp = RG.P_(('obj', 'parity'), 0)
